@@ -78,11 +78,16 @@ def badAttachmentB (cfg : Cfg) (ioDict : List (String × Name)) : Bool :=
   missingB u ioDict || wronglyTypedB u ioDict ||
     !acyclicB (names u) ((declaredEdges u ioDict).filter (fun e => (names u).contains e.2))
 
+/-- a parameter the configuration gets wrong: the value given is not of its datatype, or a value is required
+(`needscfg`) and none is given -/
+def paramWrong (q : PCfg) : Bool :=
+  (q.cfgValue.isSome && q.cfgBad) || (q.needscfg && q.cfgValue.isNone && q.clsValue.isNone)
+
 /-- a configuration nothing is wrong with: attachments fine, no failing hooks, distinct names, every HasIO user has
-a communicator -/
+a communicator, no parameter value that is rejected -/
 def cleanB (cfg : Cfg) (ioDict : List (String × Name)) : Bool :=
   let u := allMods cfg ioDict
-  !badAttachmentB cfg ioDict && u.all (fun c => !c.failEarly && !c.failInit) &&
+  !badAttachmentB cfg ioDict && u.all (fun c => !c.failEarly && !c.failInit && !c.params.any paramWrong) &&
   decide (names u).Nodup &&
   u.all (fun c => c.cls != Cls.hasio || c.atts.any (fun a => a.name == "io" && (targetOf ioDict c a).isSome)) &&
   u.all (fun c => (c.touchEarly ++ c.touchInit).all (fun t => c.atts.any (fun a => a.name == t)))
